@@ -390,24 +390,127 @@ pub fn gen_legal(rng: &mut Rng, kind: Kind, uniq: &mut Uniq, opts: &GenOpts) -> 
             break;
         }
     }
+    // Second pass: local writes, and notifications that change nothing. Values are fresh by
+    // default (a value seen in a callback then names the notification it came from); with a small
+    // probability a notification instead repeats what the link has already said: an update re-sends
+    // the value the entry holds (also right after `synced`: an entry of the snapshot arrives once
+    // more as an ordinary event), a value event repeats the current value, the lane echoes a local
+    // write (it sends back exactly what the downlink wrote). Removes of absent keys, clears of an
+    // empty map and take/drop that keep everything come out of the event generator anyway. The
+    // shadow is the fold of the notifications of the current link, as the statement defines it.
+    let mut shadow = Shadow::default();
     let mut steps: Vec<Step> = Vec::new();
     if opts.local_writes && rng.chance(1, 6) {
         steps.push(Step::Local(local_op(rng, uniq, kind)));
     }
     for n in notes {
+        let n = match n {
+            Note::Set(_) if shadow.linked && rng.chance(1, 8) => shadow.val.map_or(n, Note::Set),
+            Note::Upd(k, v) if shadow.linked && rng.chance(1, 6) => match shadow.map.get(&k) {
+                Some(cur) => Note::Upd(k, *cur),
+                // The key drawn is absent: re-send some entry that is there.
+                None if !shadow.map.is_empty() && rng.bool() => {
+                    let (k2, v2) = shadow.map.iter().nth(rng.usize_below(shadow.map.len())).map(|(k, v)| (*k, *v)).unwrap_or((k, v));
+                    Note::Upd(k2, v2)
+                }
+                None => n,
+            },
+            other => other,
+        };
+        shadow.apply(&n);
+        let just_synced = matches!(n, Note::Synced);
         let lw = opts.local_writes && rng.chance(1, 4);
+        let mut echo_of: Option<LocalOp> = None;
         if lw && !n.is_take_drop() && rng.chance(1, 3) {
-            steps.push(Step::SplitLocal(n, local_op(rng, uniq, kind)));
-            continue;
+            let op = local_op(rng, uniq, kind);
+            echo_of = Some(op.clone());
+            steps.push(Step::SplitLocal(n, op));
+        } else {
+            steps.push(Step::N(n));
+            if lw {
+                let op = local_op(rng, uniq, kind);
+                echo_of = Some(op.clone());
+                steps.push(Step::Local(op));
+            } else if rng.chance(1, 8) {
+                steps.push(Step::Barrier);
+            }
         }
-        steps.push(Step::N(n));
-        if lw {
-            steps.push(Step::Local(local_op(rng, uniq, kind)));
-        } else if rng.chance(1, 8) {
-            steps.push(Step::Barrier);
+        // The lane's answer to the local write: exactly what was written.
+        if let Some(op) = echo_of {
+            if shadow.linked && rng.chance(1, 3) {
+                let echo = match op {
+                    LocalOp::SetV(v) => Note::Set(v),
+                    LocalOp::Upd(k, v) => Note::Upd(k, v),
+                    LocalOp::Rem(k) => Note::Rem(k),
+                    LocalOp::Clr => Note::Clr,
+                };
+                shadow.apply(&echo);
+                steps.push(Step::N(echo));
+            }
+        }
+        // An entry of the snapshot (the value) arrives once more right after `synced`.
+        if just_synced && shadow.linked && rng.chance(1, 5) {
+            let again = match kind {
+                Kind::Value => shadow.val.map(Note::Set),
+                Kind::Map if !shadow.map.is_empty() => shadow.map.iter().nth(rng.usize_below(shadow.map.len())).map(|(k, v)| Note::Upd(*k, *v)),
+                Kind::Map => None,
+            };
+            if let Some(a) = again {
+                steps.push(Step::N(a));
+            }
         }
     }
     steps
+}
+
+/// The generator's own fold of the notifications of the current link (to know which value a key
+/// holds when it decides to re-send it). Never used by an oracle.
+#[derive(Default)]
+pub struct Shadow {
+    pub linked: bool,
+    pub val: Option<u64>,
+    pub map: std::collections::BTreeMap<i32, u64>,
+}
+
+impl Shadow {
+    pub fn apply(&mut self, n: &Note) {
+        match n {
+            Note::Linked => {
+                self.linked = true;
+                self.val = None;
+                self.map.clear();
+            }
+            Note::Unlinked => {
+                self.linked = false;
+                self.val = None;
+                self.map.clear();
+            }
+            Note::Synced => {}
+            _ if !self.linked => {}
+            Note::Set(v) => self.val = Some(*v),
+            Note::Upd(k, v) => {
+                self.map.insert(*k, *v);
+            }
+            Note::Rem(k) => {
+                self.map.remove(k);
+            }
+            Note::Clr => self.map.clear(),
+            Note::Take(n) => {
+                let keep = usize::try_from(*n).unwrap_or(usize::MAX);
+                let doomed: Vec<i32> = self.map.keys().skip(keep).copied().collect();
+                for k in doomed {
+                    self.map.remove(&k);
+                }
+            }
+            Note::Drop(n) => {
+                let cnt = usize::try_from(*n).unwrap_or(usize::MAX);
+                let doomed: Vec<i32> = self.map.keys().take(cnt).copied().collect();
+                for k in doomed {
+                    self.map.remove(&k);
+                }
+            }
+        }
+    }
 }
 
 /// Arbitrary notification sequences (double `linked`, `synced` before `linked`, events while
@@ -415,7 +518,15 @@ pub fn gen_legal(rng: &mut Rng, kind: Kind, uniq: &mut Uniq, opts: &GenOpts) -> 
 pub fn gen_illegal(rng: &mut Rng, kind: Kind, uniq: &mut Uniq) -> Vec<Step> {
     let n = rng.range(3, 30);
     let mut steps = Vec::new();
+    // The last update / set sent: one event in eight sends it once more.
+    let mut last: Option<Note> = None;
     for _ in 0..n {
+        if let Some(l) = last.clone() {
+            if rng.chance(1, 8) {
+                steps.push(Step::N(l));
+                continue;
+            }
+        }
         let note = match rng.below(10) {
             0..=1 => Note::Linked,
             2..=3 => Note::Synced,
@@ -433,6 +544,9 @@ pub fn gen_illegal(rng: &mut Rng, kind: Kind, uniq: &mut Uniq) -> Vec<Step> {
                 },
             },
         };
+        if matches!(note, Note::Set(_) | Note::Upd(..)) {
+            last = Some(note.clone());
+        }
         steps.push(Step::N(note));
         if rng.chance(1, 6) {
             steps.push(Step::Local(local_op(rng, uniq, kind)));
